@@ -28,16 +28,34 @@ func zzPosDec(name string, bits uint) sdk.Dec {
 	return sdk.NewDecFromBigIntWithPrec(vrt.IntRange(name, big.NewInt(1), new(big.Int).Lsh(big.NewInt(1), bits)), 18)
 }
 
-func ZZ_C19_Distribution() {
+// zzC19State: an executed-batch scenario (token, validators with Minter keys, prices, a pending batch).
+type zzC19State struct {
+	env         *ZZEnv
+	chain       types.ChainID
+	tokId       string
+	dec, mdec   uint64
+	minterAddrs []string
+	txs         []*types.SendToExternal
+	feePaid     sdk.Int
+	sup0        *big.Int
+}
+
+// zzC19Build builds the scenario; small=true fixes chain, decimals, powers and refund chains (used by C06, where the
+// subject is the order of effects, not their size).
+func zzC19Build(small bool) *zzC19State {
 	env := ZZNewEnv(10, 1000)
 	k, ctx := env.K, env.Ctx
 	k.setParams(ctx, zzDefaultParams())
 	if !vrt.Thorough() {
 		zzFeeBound = new(big.Int).Lsh(big.NewInt(1), 64)
 	}
-	chain := []types.ChainID{"ethereum", "minter"}[vrt.Choose("chain", 2)]
-	dec := zzDecimalsChoice("decimals")
-	vrt.Assume(dec == 6 || dec == 18)
+	chain := types.ChainID("ethereum")
+	dec := uint64(6) // 6 external decimals: the collected fees (<= 63 units = 6.3e13 hub units) exceed small gas costs, so refunds happen
+	if !small {
+		chain = []types.ChainID{"ethereum", "minter"}[vrt.Choose("chain", 2)]
+		dec = zzDecimalsChoice("decimals")
+		vrt.Assume(dec == 6 || dec == 18)
+	}
 	tokId := zzEthTokA
 	if chain == "minter" {
 		tokId = "7"
@@ -72,7 +90,9 @@ func ZZ_C19_Distribution() {
 			ext = common.BytesToAddress([]byte{0xaa, byte(i + 1)})
 		}
 		var power int64
-		if vrt.Thorough() {
+		if small {
+			power = []int64{3, 5}[i]
+		} else if vrt.Thorough() {
 			power = [][]int64{{3, 5}, {1, 1}, {7, 1}, {1, 2}, {10, 60}}[vrt.Choose("powers", 5)][i]
 		} else {
 			// quick tier: fixed power splits; {1,2} has shares that are not exact decimal fractions
@@ -83,14 +103,17 @@ func ZZ_C19_Distribution() {
 		minterAddrs = append(minterAddrs, ext.Hex())
 	}
 	// the executed batch
-	nt := 1 + vrt.Choose("txs", 2)
+	nt := 2
+	if !small {
+		nt = 1 + vrt.Choose("txs", 2)
+	}
 	{
 		zzFeeBound = big.NewInt(32) // both tiers: small fees/commissions keep the pro-rata products (fee*fee/fee) decidable
 	}
 	var txs []*types.SendToExternal
 	for i := 0; i < nt; i++ {
 		ste := zzSteNamed("t"+string(rune('0'+i)), chain, tokId, 1, false)
-		if i == 0 {
+		if i == 0 && !small {
 			// the commission only meets the (concrete) power shares: any size up to several whole tokens
 			ste.ValCommission.Amount = sdk.NewIntFromBigInt(vrt.IntRange("com.large", big.NewInt(0), new(big.Int).Lsh(big.NewInt(1), 72)))
 		}
@@ -98,7 +121,10 @@ func ZZ_C19_Distribution() {
 			// second transfer: fee from a fixed set (a second symbolic fee makes the pro-rata refund fee*fee/(fee+fee) non-linear)
 			ste.Fee.Amount = sdk.NewInt([]int64{0, 7, 31}[vrt.Choose("fee1.fixed", 3)])
 		}
-		ste.RefundChainId = []string{"minter", "hub"}[vrt.Choose("refundchain"+string(rune('0'+i)), 2)]
+		ste.RefundChainId = "minter"
+		if !small {
+			ste.RefundChainId = []string{"minter", "hub"}[vrt.Choose("refundchain"+string(rune('0'+i)), 2)]
+		}
 		ste.RefundAddress = "Mx000000000000000000000000000000000000000" + string(rune('1'+i))
 		for _, o := range txs {
 			vrt.Assume(o.Id != ste.Id)
@@ -112,6 +138,12 @@ func ZZ_C19_Distribution() {
 	feePaid := sdk.NewIntFromBigInt(vrt.IntRange("feePaid", big.NewInt(0), new(big.Int).Lsh(big.NewInt(1), fpBits)))
 	sup0 := env.Bank.SupplyOf("hub").BigInt()
 
+	return &zzC19State{env: env, chain: chain, tokId: tokId, dec: dec, mdec: mdec, minterAddrs: minterAddrs, txs: txs, feePaid: feePaid, sup0: sup0}
+}
+
+func ZZ_C19_Distribution() {
+	st := zzC19Build(false)
+	env, k, ctx, chain, tokId, dec, mdec, minterAddrs, txs, feePaid, sup0 := st.env, st.env.K, st.env.Ctx, st.chain, st.tokId, st.dec, st.mdec, st.minterAddrs, st.txs, st.feePaid, st.sup0
 	if vrt.Panics(func() { k.batchTxExecuted(ctx, chain, tokId, 1, "exthash", feePaid, "Mxfeepayer") }) {
 		vrt.Reach("c19.panicked")
 		return // C05
@@ -192,6 +224,42 @@ func ZZ_C19_Distribution() {
 			}
 			vrt.Assert("c19.record.within-fee-paid"+cls, !rec.ExternalFee.IsNegative() && rec.ExternalFee.LTE(t.Fee.Amount))
 			vrt.Assert("c19.record.commission", rec.ValCommission.Equal(t.ValCommission.Amount))
+		}
+	}
+}
+
+// ZZ_C06_BatchExecuted (C06): the observed execution of a two-transfer batch with refunds and commission payouts,
+// run on two copies of the same state: identical store, balances and events whatever order map iteration takes
+// (transfer ids are handed out in creation order, so a map-ordered payout loop changes who gets which id).
+func ZZ_C06_BatchExecuted() {
+	rounds := 1
+	if !vrt.Symbolic() {
+		rounds = 64
+	}
+	for r := 0; r < rounds; r++ {
+		a, b := zzC19Build(true), zzC19Build(true)
+		run := func(st *zzC19State) bool {
+			return vrt.Panics(func() { st.env.K.batchTxExecuted(st.env.Ctx, st.chain, st.tokId, 1, "exthash", st.feePaid, "Mxfeepayer") })
+		}
+		pa, pb := run(a), run(b)
+		vrt.Reach("c06.batchexecuted")
+		if pa || pb {
+			vrt.Assert("c06.batchexecuted.same-outcome", pa == pb)
+			continue
+		}
+		refunds := 0
+		for _, o := range zzPoolOf(a.env.K, a.env.Ctx, "minter") {
+			if o.TxHash == "#fee" && o.ExternalRecipient != "Mxfeepayer" {
+				refunds++
+			}
+		}
+		if refunds >= 2 {
+			vrt.Reach("c06.batchexecuted.two-refunds") // several payouts whose ids depend on creation order
+		}
+		same := ZZSameState(a.env, b.env)
+		vrt.Assert("c06.batchexecuted.same-state-and-events", same)
+		if !same {
+			return
 		}
 	}
 }
